@@ -6,6 +6,7 @@
    executable surrogate pow_s used by the correspondence check. *)
 From Coq Require Import QArith Qminmax List Bool.
 From WSI Require Import Vqip Pow CoreLaws Decay.
+From WSI Require Tank Arc QTank TankLaws QTankLaws QueueLaws DecayStores.
 From WSI.gen Require Import GenCore.
 Import ListNotations.
 Open Scope Q_scope.
@@ -81,3 +82,45 @@ Print Assumptions C11_n_closeouts_partition.
 Print Assumptions C11_n_closeouts_bounds.
 Print Assumptions C11_surrogate_pow_ok.
 Print Assumptions C11_decay_does_not_modify_its_argument.
+
+(* ---- the stores and arcs that decay what they hold (Tank.v, Arc.v, QTank.v; DecayStores.v) ----
+   Their decay step IS the core function above (with the executable power surrogate, normalised),
+   so every law above applies to it; and the accounting identity holds over histories: *)
+Theorem C11_store_decay_is_the_core_function : forall d T v,
+  Tank.vdecay d T v = (vnorm (fst (gen_generic_temperature_decay pow_s v d T)),
+                       vnorm (snd (gen_generic_temperature_decay pow_s v d T))).
+Proof. exact DecayStores.vdecay_is_core. Qed.
+Print Assumptions C11_store_decay_is_the_core_function.
+
+(* a decaying tank at close-out: remaining + reported = contents before; the lagged copy is the contents before *)
+Theorem C11_decaying_tank_closeout : forall t T c, conserved c ->
+  cmp c (Tank.t_sto (Tank.t_end t T)) + (match Tank.t_dec t with [] => 0 | _ => cmp c (Tank.t_decayed (Tank.t_end t T)) end)
+    == cmp c (Tank.t_sto t) /\
+  Tank.t_sto_ (Tank.t_end t T) = Tank.t_sto t.
+Proof. exact TankLaws.t_end_closeout. Qed.
+Print Assumptions C11_decaying_tank_closeout.
+
+(* ... over any number of consecutive close-outs at any temperatures *)
+Theorem C11_decaying_tank_n_closeouts : forall c, conserved c -> forall Ts t,
+  cmp c (Tank.t_sto (fst (DecayStores.tank_closeouts c t Ts))) + snd (DecayStores.tank_closeouts c t Ts) == cmp c (Tank.t_sto t).
+Proof. exact DecayStores.tank_closeouts_partition. Qed.
+Print Assumptions C11_decaying_tank_n_closeouts.
+
+(* a decaying travel-time arc (DecayArcAlt; the queue of a DecayQueueTank): entry decay and close-out decay
+   of every parcel in transit are reported exactly *)
+Theorem C11_decaying_arc_entry : forall (l : Arc.altarc) time v c, conserved c ->
+  QTankLaws.csum c (Arc.l_b (Arc.l_enter l time v)) + cmp c (Arc.l_decayed (Arc.l_enter l time v))
+  == QTankLaws.csum c (Arc.l_b l) + cmp c (Arc.l_decayed l) + cmp c v.
+Proof. exact DecayStores.l_enter_decay. Qed.
+Print Assumptions C11_decaying_arc_entry.
+
+Theorem C11_decaying_arc_closeout : forall (l : Arc.altarc) c, conserved c -> Arc.l_dec l <> [] ->
+  QTankLaws.csum c (Arc.l_b (Arc.l_end l)) + cmp c (Arc.l_decayed (Arc.l_end l)) == QTankLaws.csum c (Arc.l_b l).
+Proof. exact DecayStores.l_end_decay. Qed.
+Print Assumptions C11_decaying_arc_closeout.
+
+(* a decaying queue arc (DecayArc): the same at entry and at close-out *)
+Theorem C11_decaying_queue_arc_closeout : forall q c, conserved c -> Arc.q_dec q <> [] ->
+  QueueLaws.qsumc c (Arc.q_queue (Arc.q_end q)) + cmp c (Arc.q_decayed (Arc.q_end q)) == QueueLaws.qsumc c (Arc.q_queue q).
+Proof. exact DecayStores.q_end_decay. Qed.
+Print Assumptions C11_decaying_queue_arc_closeout.
